@@ -138,6 +138,12 @@ class ConcH:
     def filesize(self, f):
         return os.path.getsize(f)
 
+    def text_of(self, f):
+        return open(f, 'r').read()
+
+    def text_number(self, tok):
+        return float(tok)
+
     def frac(self, a, b=1):
         return a / b
 
